@@ -71,7 +71,7 @@ ZStrCells == {[k |-> "ZonedDateTime.fromStrOffset", n |-> c.n, t |-> c.t, off |-
 \* instant within the instant limits; tt = "none" is the start of the day
 DateToZonedCells == {[k |-> "PlainDate.toZonedUtc", n |-> n, tt |-> tt] : n \in {MinDay, MinDay + 1, MaxDay - 1, MaxDay, 0}, tt \in {"none", "midnight", "t1", "last"}}
 InstNewCells == {[k |-> "Instant.new", ns |-> Add(b, FromInt(d))] : b \in {MaxInstantBig, Neg(MaxInstantBig)}, d \in Deltas} \cup {[k |-> "Instant.new", ns |-> MulSmall(MaxInstantBig, 2)]} \cup {[k |-> "Instant.new", ns |-> n] : n \in I128Ends}
-InstAddCells == {[k |-> "Instant.add", i |-> Add(b, FromInt(d0)), ns |-> FromInt(d), sub |-> s] : b \in {MaxInstantBig, Neg(MaxInstantBig)}, d0 \in {-1, 0, 1} , d \in Deltas, s \in BOOLEAN} 
+InstAddCells == {[k |-> "Instant.add", i |-> Add(b, FromInt(d0)), ns |-> FromInt(d), sub |-> s, via |-> via] : b \in {MaxInstantBig, Neg(MaxInstantBig)}, d0 \in {-1, 0, 1} , d \in Deltas, s \in BOOLEAN, via \in {"dur", "td"}} 
 InstAddCellsOK == {c \in InstAddCells : InInstantRange(c.i)}
 \* the argument is a 64-bit integer: its own extremes (|i64::MIN| is not representable - a sign trick overflows there) are inputs too
 I64Max == Add(Add(K9(K9(FromInt(9))), K9(FromInt(223372036))), FromInt(854775807))
@@ -155,7 +155,7 @@ Call(c) ==
          [op |-> c.k, args |-> [ty |-> c.ty, v |-> c.v, frac |-> c.frac],
           out |-> CASE c.k = "Prim.truncated" -> Truncated(c.ty, c.v) [] c.k = "Prim.integral" -> Integral(c.ty, c.v, c.frac) [] OTHER -> Positive(c.ty, c.v)]
     [] c.k = "Instant.new" -> [op |-> "Instant.new", args |-> [ns |-> c.ns], out |-> InstantNew(c.ns)]
-    [] c.k = "Instant.add" -> [op |-> IF c.sub THEN "Instant.subtract" ELSE "Instant.add", args |-> [recv |-> c.i, dur |-> NsD(IF c.sub THEN Neg(c.ns) ELSE c.ns)], out |-> InstantAdd(c.i, NsD(c.ns))]
+    [] c.k = "Instant.add" -> [op |-> IF c.sub THEN "Instant.subtract" ELSE "Instant.add", args |-> [recv |-> c.i, dur |-> NsD(IF c.sub THEN Neg(c.ns) ELSE c.ns), via |-> c.via], out |-> InstantAdd(c.i, NsD(c.ns))]
     [] c.k = "Instant.fromEpochMs" -> [op |-> "Instant.fromEpochMs", args |-> [ms |-> c.ms], out |-> FromEpochMs(c.ms)]
     [] c.k = "Instant.round" -> [op |-> "Instant.round", args |-> [recv |-> c.i, st |-> [smallest |-> c.u, inc |-> c.inc, mode |-> c.mode]], out |-> InstantRound(c.i, c.u, c.inc, c.mode)]
     [] c.k = "Duration.add" -> [op |-> "Duration.add", args |-> [recv |-> c.a, other |-> c.b], out |-> DurAdd(c.a, c.b)]
